@@ -54,6 +54,30 @@ where
     let n = geti(v, "n") as usize;
     let sk = lib.sk::<C>(k);
     let want = gets(&v["expect"], "res");
+    if gets(v, "act") == "CrossDeal" {
+        // both deals through the entry point that draws its own randomness, one after the other on this thread
+        use blsful::inner_types::PrimeField;
+        let sk2 = lib.sk::<C>(geti(v, "k2"));
+        let i = geti(v, "i") as usize;
+        let (d1, d2) = match (sk.split(t, n), sk2.split(t, n)) {
+            (Ok(a), Ok(b)) => (a, b),
+            _ => return Outcome::fail(json!({}), "split refused valid parameters"),
+        };
+        let val = |s: &SecretKeyShare<C>| -> Option<Sc<C>> { s.0.as_field_element::<Sc<C>>().ok() };
+        let (a, b) = match (val(&d1[i - 1]), val(&d2[i - 1])) {
+            (Some(a), Some(b)) => (a, b),
+            _ => return Outcome::fail(json!({}), "share value does not decode"),
+        };
+        let leak = a - b + sk2.0 == sk.0;
+        let same = a == b;
+        let _ = Sc::<C>::NUM_BITS;
+        if leak != getb(&v["expect"], "leak") || same != getb(&v["expect"], "sameshare") {
+            return Outcome::fail(json!({"leak": leak, "sameshare": same}), "two deals made one after the other are related: f_k(i) - f_k2(i) + k2 = k (the polynomials share their coefficients) or a share repeats");
+        }
+        let mut o = Outcome::pass(json!({"leak": leak}));
+        o.extra += 1;
+        return o;
+    }
     let dealt = deal::<C>(&sk, t, n, conc.seed);
     match gets(v, "act") {
         "Split" => {
